@@ -67,13 +67,13 @@ func VerifLexAll(src []byte, max int) ([]VerifTok, []VerifComment, int) {
 // it ("ID", "STAGE", "'('", ...), or "" if there is none.
 func VerifTokenName(id int) string {
 	if id >= mmPrivate {
-		if i := id - mmPrivate + 1; i >= 0 && i < len(mmToknames) {
-			return mmToknames[i]
+		if i := id - mmPrivate; i < len(mmTok2) {
+			return mmTokname(int(mmTok2[i]))
 		}
 		return ""
 	}
-	if id > 0 && id < 128 {
-		return "'" + string(rune(id)) + "'"
+	if id > 0 && id < len(mmTok1) {
+		return mmTokname(int(mmTok1[id]))
 	}
 	return ""
 }
